@@ -146,6 +146,36 @@ def check(run):
         ok = ok or (is_node(sub) and sub['k'] == 'case' and 'type_t::payload' in q.render(ip, sub.get('v')))
     run.check(ok, 'R5', 'eof-sequenced-like-data', T + '::incoming_packet', ip.loc(), 'the error (EOF) case does not fall through into the payload case: EOF bypasses sequencing', 'case error falls through into case payload')
 
+    run.clause('segments are cut from the gather sequence in order with no gaps: once the congestion window is full no further segment is cut in the same call')
+    import p06
+    ws = fx.fn1(T + '::write_some_impl')
+    run.touch(ws)
+    sends = [c for c in ws.calls() if q.callee_name(c) == T + '::send_packet']
+    csub = q.const_local_subst(ws)
+    nfull = 0
+    for b, blk in ws.cfg.blocks.items():
+        atom, neg = ws.cfg.branch_atom(b)
+        if atom is None or len(blk['succ']) != 2 or p06.window_cmp(ws, atom, csub) != '>':
+            continue
+        full_edge = blk['succ'][1] if neg else blk['succ'][0]
+        if full_edge is None:
+            continue
+        # only the test that follows a send (inside the segmentation loop) matters
+        if not any(ws.cfg._reaches(ws.cfg.node_block(c), b) for c in sends):
+            continue
+        nfull += 1
+        reach = ws.cfg.reach_from(full_edge) | {full_edge}
+        again = [c for c in sends if ws.cfg.node_block(c) in reach]
+        run.check(not again, 'R4', 'window-full-stops-segmentation', ws.norm, ws.loc(atom),
+                  'after the congestion window filled up, control can still reach send_packet (the exit leaves only the inner loop): the next gather buffer is cut into a segment while the rest of the current one is skipped, so the stream has holes',
+                  'the window-full edge leaves the function without cutting another segment')
+    if nfull < 1:
+        run.broke('write_some_impl: window-full test after send_packet not found')
+    # each segment continues where the previous one ended: ptr/buf_size advance by the segment length (checked in C20) and
+    # the for-range visits the buffers in order
+    loops = [n for n in ws.all_nodes() if n['k'] == 'rangefor' and q.render(ws, n.get('range')) == 'bufs']
+    run.check(len(loops) == 1, 'R4', 'gather-in-order', ws.norm, ws.loc(), 'the gather buffers are not visited by one forward range-for', 'single forward pass over bufs')
+
     run.clause('EOF-last: a queued error marker is surfaced only on paths where no payload byte has been gathered')
     n_eof = 0
     for name in ('available', 'read_some_impl'):
